@@ -128,6 +128,7 @@ func isEnvCopyOf(in ssa.Instruction, ra readerAdapter) bool {
 }
 
 func runC08(c *Ctx) {
+	defer runC08CountUpdatedBeforeJudged(c)
 	p := c.P
 	// clauses this property shares with others (see DESIGN.md section 6a)
 	defer c.ImportRules("C01", "C01.1")
@@ -723,4 +724,97 @@ func isLenOf(v ssa.Value, prm *ssa.Parameter) bool {
 		}
 	}
 	return false
+}
+
+// runC08CountUpdatedBeforeJudged: C08.6 (seed C08k).  A reader that hands out exactly the
+// announced number of bytes of a message decides "the source ended early" by comparing what is
+// still owed with zero when the source reports io.EOF.  A source may return its last bytes
+// TOGETHER with io.EOF (net/http does at the end of a Content-Length body); the comparison is
+// right only if the bytes of this very read have been subtracted first.  With the statements the
+// other way round a complete message whose last piece arrives with EOF is reported as truncated,
+// while the same bytes followed by a separate EOF pass - the outcome depends on how the source
+// chunks.  Structural, for every Read method that subtracts the wrapped read's count from a
+// cell of its receiver: every later comparison of that cell is after the subtraction.
+func runC08CountUpdatedBeforeJudged(c *Ctx) {
+	p := c.P
+	c.Rule("C08.6", "a remaining-bytes count is compared only after the current read's bytes were subtracted", 1)
+	n := 0
+	for _, fn := range p.Funcs {
+		if !p.inScope(fn) || fn.Signature.Recv() == nil || N(fn) != "Read" || len(fn.Blocks) == 0 {
+			continue
+		}
+		// the wrapped read: an invoke of Read on a field of the receiver
+		var rd *ssa.Call
+		for _, call := range Calls(fn) {
+			if cv, ok := call.(*ssa.Call); ok && cv.Call.IsInvoke() && N(cv.Call.Method) == "Read" {
+				rd = cv
+			}
+		}
+		if rd == nil {
+			continue
+		}
+		var cnt ssa.Value
+		for _, ref := range *rd.Referrers() {
+			if ex, ok := ref.(*ssa.Extract); ok && ex.Index == 0 {
+				cnt = ex
+			}
+		}
+		if cnt == nil {
+			continue
+		}
+		// stores  recv.f = recv.f - int64(cnt)
+		ForEachInstr(fn, func(in ssa.Instruction) {
+			st, ok := in.(*ssa.Store)
+			if !ok {
+				return
+			}
+			fa, ok := st.Addr.(*ssa.FieldAddr)
+			if !ok {
+				return
+			}
+			bo, ok := st.Val.(*ssa.BinOp)
+			if !ok || bo.Op != token.SUB || LoadedField(bo.X) != FieldOfAddr(fa) {
+				return
+			}
+			fromCnt := false
+			for _, o := range Origins(bo.Y) {
+				if strip(o.V) == cnt {
+					fromCnt = true
+				}
+			}
+			if !fromCnt && strip(bo.Y) != cnt {
+				return
+			}
+			fld := FieldOfAddr(fa)
+			n++
+			bad := token.NoPos
+			ForEachInstr(fn, func(in2 ssa.Instruction) {
+				cmp, ok := in2.(*ssa.BinOp)
+				if !ok {
+					return
+				}
+				switch cmp.Op {
+				case token.GTR, token.GEQ, token.LSS, token.LEQ, token.EQL, token.NEQ:
+				default:
+					return
+				}
+				if LoadedField(cmp.X) != fld && LoadedField(cmp.Y) != fld {
+					return
+				}
+				// only comparisons made after the wrapped read matter
+				if !instrBefore(rd, cmp) {
+					return
+				}
+				if !instrBefore(st, cmp) {
+					bad = cmp.Pos()
+				}
+			})
+			c.Check(bad == token.NoPos, "C08.6", FuncName(fn), "count-updated-before-judged:"+N(fld), st.Pos(),
+				"every comparison of the count after the wrapped read follows the subtraction of that read's bytes",
+				"the count of bytes still owed is compared ("+p.Pos(bad)+") before the bytes of the current read are subtracted from it: when the source returns its last bytes together with io.EOF the complete message is taken for a truncated one, while the same bytes followed by a separate EOF pass - the result depends on how the source splits its reads")
+		})
+	}
+	if n == 0 {
+		c.Bad("C08.6", "package", "count-updated-before-judged", token.NoPos, "no reader keeps a count of the bytes still owed: shape changed")
+	}
 }
